@@ -498,12 +498,17 @@ Step(St, e) ==
       [] OTHER -> UserEv(St, e)
 
 TInit == l = 1 /\ S = S0
+\* A breach / host trap is reported (PrintT, TRUE) by the step that causes it; the run it belongs to is dead from then on
+\* (Step ignores events until the next "reset"), and the runs after it in the same log are still judged.  Reporting through
+\* a violated invariant would stop TLC at the first breach of the whole log and hide every later one.
+Report(St, St1, k) ==
+    /\ (St1.H.trap # "" /\ St.H.trap = "") => PrintT(<<"HOSTTRAP", ToJson([what |-> St1.H.trap, at |-> k, event |-> Rec[k]])>>)
+    /\ (St1.bad # "" /\ St.bad = "") => PrintT(<<"BREACH", ToJson([what |-> St1.bad, at |-> k, event |-> Rec[k]])>>)
 TNext == /\ l <= Len(Rec) /\ l' = l + 1
          /\ S' = LET St1 == Step(S, Rec[l]) IN
                  IF St1.mockTrap # "" /\ Rec[l].ev \notin {"TRAP", "reset", "decide", "host.transfer", "NOTE"} THEN [St1 EXCEPT !.mockTrapLag = @ + 1] ELSE St1
+         /\ Report(S, S', l)
 
-NoTrap == S.H.trap = "" \/ Print(<<"HOSTTRAP", ToJson([what |-> S.H.trap, at |-> l - 1, event |-> Rec[l - 1]])>>, FALSE)
-NoViolation == S.bad = "" \/ Print(<<"BREACH", ToJson([what |-> S.bad, at |-> l - 1, event |-> Rec[l - 1]])>>, FALSE)
 \* the mock host and the spec must agree on what traps
 MockAgrees == (S.mockTrap = "") \/ (S.H.trap # "") \/ S.mockTrapLag < 1
               \/ Print(<<"DRIFT", ToJson([mock |-> S.mockTrap, at |-> l - 1])>>, FALSE)
